@@ -20,7 +20,9 @@ CREATE / DROP TABLE + INDEX + FK with checkfirst, CREATE TABLE AS SELECT, CREATE
   another schema, or was lost, shows up) - including sqlite_master for DDL;
 * errors: subject and twin raise the same exception class or none.
 
-The map is supplied, at random, through Connection.execution_options,
+Maps are fresh literals, the very same dict object again, a dict used by an earlier execution and
+updated in place, or a copy taken from such a dict after its use (with changed targets, None key
+added / removed).  The map is supplied, at random, through Connection.execution_options,
 Engine.execution_options or the per-statement execution_options; map objects are
 rebuilt or reused; statements are rebuilt (fresh objects, same cache key) or reused.
 
@@ -50,7 +52,7 @@ META = {
     "soft_s": {"quick": 45, "thorough": 700},
     "exhaustive": {"quick": False, "thorough": False},
     "require": ["steps", "sql_streams_compared", "rows_compared", "dumps_compared", "cache_hits_other_map", "payload_checks", "ddl_steps", "dml_steps",
-                "imv_steps", "none_key_maps", "writes_observed", "ddl_with_select_steps", "empty_map_then_real_map"],
+                "imv_steps", "none_key_maps", "writes_observed", "ddl_with_select_steps", "empty_map_then_real_map", "maps_mutated_in_place", "maps_copied_after_use"],
     "assumptions": ["literal-schema statements compile correctly without schema_translate_map (twin)"],
 }
 
@@ -396,6 +398,7 @@ def sequence(ctx, sa, length):
     try:
         none_mode = rng.random() < 0.5
         shared_maps = {}
+        used_maps = []
         # few statement shapes / variants per sequence, so that the same compiled form is met under many maps
         pool_variants = rng.sample(list(VARIANTS), 2)
         pool_builds = rng.sample(SELECTS, 2) + rng.sample(DML, 3)
@@ -416,8 +419,31 @@ def sequence(ctx, sa, length):
             else:
                 m = draw_map(rng, variant, nm)
                 ck = repr(sorted(m.items(), key=repr))
-                if rng.random() < 0.5:
+                evolve = rng.random()
+                if used_maps and evolve < 0.4:
+                    # the map for this execution is derived from a dict that an earlier execution already
+                    # used (and that the library may have written to): updated in place, or copied afterwards
+                    base = rng.choice(used_maps)
+                    if evolve < 0.2:
+                        base.update(m)
+                        m = base
+                        ctx.count("maps_mutated_in_place")
+                    else:
+                        m = {**base, **m}
+                        ctx.count("maps_copied_after_use")
+                    if not nm and None in m and rng.random() < 0.7:
+                        del m[None]       # (a residue key written by the library may stay behind)
+                elif rng.random() < 0.5:
                     m = shared_maps.setdefault(ck, m)  # reuse the very same dict object
+                if not any(x is m for x in used_maps):
+                    used_maps.append(m)
+            # the library writes an alias key "_none" into the caller's dict; a map derived from such a dict
+            # *without* the None key still carries it and silently keeps translating schema-less tables
+            residue = bool(m) and "_none" in m and None not in m
+
+            def V(mech, msg, d, residue=residue):
+                ctx.violation("none-alias-residue-in-user-map" if residue else mech, msg, d)
+
             how = rng.choice(["connection", "engine", "statement"])
             logical = VARIANTS[variant]
             twin_sch = {k: effective(v, m) for k, v in logical.items()}
@@ -448,6 +474,12 @@ def sequence(ctx, sa, length):
             ctx.count("steps")
             desc = {"step": step, "stmt": skey[0], "variant": variant, "map": repr(m), "how": how, "fresh_objects": fresh,
                     "subject_sql": [s for s, _ in sql_s][:3]}
+            if any("__[SCHEMA_" in q for q, _ in sql_s):
+                # the cached Compiled consults the truthiness of the *caller's* dict it was first compiled
+                # with; once that dict was emptied in place the tokens are no longer rendered
+                ctx.violation("raw-schema-token-sent-to-database",
+                              f"{skey[0]}: map={m!r}: the statement reached the DBAPI with an unrendered __[SCHEMA_x] token", desc)
+                return
             has_none = bool(m) and None in m
             if m:
                 if has_none:
@@ -459,9 +491,9 @@ def sequence(ctx, sa, length):
                     ctx.count("refused_inconsistent_none_key")
                     seen_none.setdefault(skey, set()).add(has_none)
                     if dump_all(rig.subj_paths) != before:
-                        ctx.violation("refused-step-changed-database", "a refused execution changed the database", desc)
+                        V("refused-step-changed-database", "a refused execution changed the database", desc)
                     continue
-                ctx.violation("none-key-refusal-without-inconsistency", f"{skey[0]}: refused with 'consistent keys' but no earlier map differed in None-key presence", desc)
+                V("none-key-refusal-without-inconsistency", f"{skey[0]}: refused with 'consistent keys' but no earlier map differed in None-key presence", desc)
                 continue
             if m:
                 seen_none.setdefault(skey, set()).add(has_none)
@@ -484,7 +516,7 @@ def sequence(ctx, sa, length):
             seen_maps.setdefault(skey, set()).add(mk)
             ctx.case({"k": skey, "m": mk, "seq": rig.tagn, "step": step, "shard": ctx.shard}, nontrivial=nontriv and twin_sch != logical)
             if err_s != err_t:
-                ctx.violation(f"outcome-differs:{skey[0]}", f"subject raised {err_s}, literal-schema twin raised {err_t}; map={m!r}", desc)
+                V(f"outcome-differs:{skey[0]}", f"subject raised {err_s}, literal-schema twin raised {err_t}; map={m!r}", desc)
                 _resync(rig)
                 return
             ctx.count("sql_streams_compared")
@@ -493,25 +525,25 @@ def sequence(ctx, sa, length):
                 a = sql_s[k] if k < len(sql_s) else None
                 b = sql_t[k] if k < len(sql_t) else None
                 what = "sql" if (a and b and a[0] != b[0]) else ("params" if a and b else "count")
-                ctx.violation(f"sql-stream-differs:{what}:{skey[0]}", f"map={m!r}: statement {k}: subject {a} != twin {b}", desc)
+                V(f"sql-stream-differs:{what}:{skey[0]}", f"map={m!r}: statement {k}: subject {a} != twin {b}", desc)
             if rows_s is not None or rows_t is not None:
                 ctx.count("rows_compared")
                 srt = (lambda r: r) if build not in (st_update_corr, st_insert_many_sub) else sorted
                 if srt(rows_s or []) != srt(rows_t or []):
-                    ctx.violation(f"rows-differ:{skey[0]}", f"map={m!r}: subject rows {rows_s[:3] if rows_s else rows_s} twin rows {rows_t[:3] if rows_t else rows_t}", desc)
+                    V(f"rows-differ:{skey[0]}", f"map={m!r}: subject rows {rows_s[:3] if rows_s else rows_s} twin rows {rows_t[:3] if rows_t else rows_t}", desc)
                 # absolute payload check for the simple shapes
                 if build is None and rows_s and twin_sch["t"] is not None:
                     # CREATE TABLE AS / CREATE VIEW: the new object must hold the *target* schema's payload
                     want = CODE[twin_sch["t"]]
                     ctx.count("payload_checks")
                     if any(isinstance(r[1], int) and r[1] < 10000 and r[1] // 1000 != want for r in rows_s):
-                        ctx.violation("ddl-select-payload-from-wrong-schema", f"map={m!r}: created object holds {rows_s[:3]}, expected schema code {want}", desc)
+                        V("ddl-select-payload-from-wrong-schema", f"map={m!r}: created object holds {rows_s[:3]}, expected schema code {want}", desc)
                 if build in (st_select_in, st_insert_ret, st_insert_many_ret) and rows_s:
                     if build is st_select_in:
                         want = CODE[twin_sch["t"] or "main"]
                         ctx.count("payload_checks")
                         if any(r[1] // 1000 != want for r in rows_s if isinstance(r[1], int) and r[1] < 10000):
-                            ctx.violation("payload-from-wrong-schema", f"map={m!r}: rows {rows_s[:3]} should carry schema code {want}", desc)
+                            V("payload-from-wrong-schema", f"map={m!r}: rows {rows_s[:3]} should carry schema code {want}", desc)
             a, b = dump_all(rig.subj_paths), dump_all(rig.twin_paths)
             ctx.count("dumps_compared")
             if a != before:
@@ -527,10 +559,10 @@ def sequence(ctx, sa, length):
                 # an unqualified name is resolved by SQLite's own search order (main, then attached): only
                 # schema-qualified targets have a generator-known destination
                 if tgt_qualified and set(changed) - exp_sch:
-                    ctx.violation(f"write-landed-in-wrong-schema:{skey[0]}", f"map={m!r}: schemas changed {changed}, expected only {sorted(exp_sch)}", desc)
+                    V(f"write-landed-in-wrong-schema:{skey[0]}", f"map={m!r}: schemas changed {changed}, expected only {sorted(exp_sch)}", desc)
             if a != b:
                 diff = [s for s in SCHEMAS if a[s] != b[s]]
-                ctx.violation(f"database-state-differs:{skey[0]}", f"map={m!r}: schemas {diff} differ between subject and literal-schema twin", desc)
+                V(f"database-state-differs:{skey[0]}", f"map={m!r}: schemas {diff} differ between subject and literal-schema twin", desc)
                 _resync(rig)
                 return
     finally:
